@@ -303,7 +303,7 @@ Qed.
 Lemma pro_walk_accepts_model own : forall ops t step, sorted (keys t) -> snd (pro_walk own t ops (pro_run own t ops) step) = [].
 Proof.
   induction ops as [|o ops IH]; intros t step Hs; [reflexivity|].
-  cbn [pro_run]. destruct o as [h|id|gs ans|p ans]; cbn [op_obs].
+  cbn [pro_run]. destruct o as [h|id|gs ans|p ans|cap k multi p gs ans]; cbn [op_obs].
   - unfold add_handler. cbn [pro_walk].
     destruct (next_id_fresh t Hs) as [Hfresh _].
     assert (Ef: existsb (fun k => k =? next_id t) (keys t) = false).
@@ -325,6 +325,8 @@ Proof.
     rewrite list_eqb_refl. exact IH.
   - cbn [pro_walk]. specialize (IH t (step + 1) Hs). destruct (pro_walk own t ops (pro_run own t ops) (step + 1)) as [vs fs]. cbn [snd] in *.
     rewrite list_eqb_refl. exact IH.
+  - cbn [pro_walk]. specialize (IH t (step + 1) Hs). destruct (pro_walk own t ops (pro_run own t ops) (step + 1)) as [vs fs]. cbn [snd] in *.
+    rewrite list_eqb_refl. exact IH.
 Qed.
 Lemma parse_lists_show : forall ls r, parse_lists_n (length ls) (concat (map (fun l => nlen l :: l) ls) ++ r) = Some (ls, r).
 Proof.
@@ -335,9 +337,9 @@ Proof.
   unfold parse_obs_lists, show_lists, nlen. rewrite Nat2N.id. rewrite <- (app_nil_r (concat _)), parse_lists_show. reflexivity.
 Qed.
 Theorem pro_checkers_accept_model case own ops : pro_split case = Some (own, ops) ->
-  ok_C15 case (run_PRO case) = [] /\ ok_C16 case (run_PRO case) = [] /\ ok_C17 case (run_PRO case) = [].
+  ok_C15 case (run_PRO case) = [] /\ ok_C16 case (run_PRO case) = [] /\ ok_C17 case (run_PRO case) = [] /\ ok_C18_PRO case (run_PRO case) = [].
 Proof.
-  intros Hc. unfold ok_C15, ok_C16, ok_C17, pro_eval, run_PRO. rewrite Hc, parse_obs_show.
+  intros Hc. unfold ok_C15, ok_C16, ok_C17, ok_C18_PRO, pro_eval, run_PRO. rewrite Hc, parse_obs_show.
   assert (Hs: sorted (keys [])) by constructor.
   pose proof (pro_walk_accepts_model own ops [] 0 Hs) as H.
   destruct (pro_walk own [] ops (pro_run own [] ops) 0) as [vs fs]. cbn [snd] in H. subst fs. repeat split; reflexivity.
@@ -347,6 +349,8 @@ Proof. intros H. apply (pro_checkers_accept_model case own ops H). Qed.
 Lemma ok_C16_accepts_model case own ops : pro_split case = Some (own, ops) -> ok_C16 case (run_PRO case) = [].
 Proof. intros H. apply (pro_checkers_accept_model case own ops H). Qed.
 Lemma ok_C17_accepts_model case own ops : pro_split case = Some (own, ops) -> ok_C17 case (run_PRO case) = [].
+Proof. intros H. apply (pro_checkers_accept_model case own ops H). Qed.
+Lemma ok_C18_PRO_accepts_model case own ops : pro_split case = Some (own, ops) -> ok_C18_PRO case (run_PRO case) = [].
 Proof. intros H. apply (pro_checkers_accept_model case own ops H). Qed.
 
 (* ---------- C18: the EXC checker accepts the model's observation ---------- *)
@@ -429,7 +433,7 @@ Proof. intros H. unfold show_trace. change (fun e : tev => match e with TWait =>
 Theorem ok_C18_accepts_model case own cap k multi p t gs ans :
   exc_split case = Some (own, cap, k, multi, p, t, gs, ans) -> ok_C18 case (run_EXC case) = [].
 Proof.
-  intros Hc. unfold ok_C18, run_EXC. rewrite Hc.
+  intros Hc. unfold ok_C18, run_EXC. rewrite Hc. unfold exc_obs.
   destruct (send_packet_shape own t p (mkI gs ans [])) as [Hret Hgets]. cbn [i_gets] in Hgets.
   destruct multi.
   - unfold exchangeN. destruct (send_packet own t p (mkI gs ans [])) as [[sret slog] si] eqn:Es. cbn [fst snd] in Hret, Hgets.
